@@ -4,6 +4,9 @@ import json, os, subprocess
 V = os.path.dirname(os.path.dirname(os.path.abspath(__file__)))
 props = [json.loads(l) for l in open(os.path.join(V, "properties.jsonl"))]
 CLAIMS = json.load(open(os.path.join(V, "tools", "claims.json")))
+import glob
+for f in sorted(glob.glob(os.path.join(V, "tools", "claims", "*.json"))):   # one file per property: {"text":..., "note":..., "technique":...}
+    CLAIMS[os.path.basename(f)[:-5]] = json.load(open(f))
 hooks_commits = subprocess.run("git -C /repo log --format=%H --grep='^verif hooks' ", shell=True, stdout=subprocess.PIPE).stdout.decode().split()
 checks, na = [], []
 for p in props:
